@@ -171,6 +171,15 @@ m2("C11","parse-forgets-max-open","util/semver/span.go","\t\t\tminOpen: minOpen,
 b("c11-contains-if-chain", ["C11","C09","C04"], "util/semver/span.go", "\tswitch s.rank {\n\tcase empty:\n\t\treturn false\n\tcase unit:\n\t\treturn compare(s.min, v) == 0\n\t}", "\tif s.rank == empty {\n\t\treturn false\n\t}\n\tif s.rank != vector {\n\t\treturn compare(s.min, v) == 0\n\t}", note="rank switch written as an if chain with a != test")
 m2("C12","sort-only-matches","util/resolve/match.go","\tsortNPMVersions(vers)\n\tconstraint, err := req.System.Semver().ParseConstraint(req.Version)\n\tif err != nil {\n","\tconstraint, err := req.System.Semver().ParseConstraint(req.Version)\n\tif err != nil {\n\t\tsortNPMVersions(vers)\n","C12.g","range matches sorted after filtering", more=[("\t\t\tmatches = append(matches, v)\n\t\t}\n\t}\n\treturn matches\n}\n\n// matchRequirement is a default", "\t\t\tmatches = append(matches, v)\n\t\t}\n\t}\n\tsortNPMVersions(matches)\n\treturn matches\n}\n\n// matchRequirement is a default")])
 b("c12-sort-a-copy", ["C12","C05","C14"], "util/resolve/match.go", "\tsortNPMVersions(vers)\n\tconstraint, err := req.System.Semver().ParseConstraint(req.Version)", "\tvers = slices.Clone(vers)\n\tsortNPMVersions(vers)\n\tconstraint, err := req.System.Semver().ParseConstraint(req.Version)", note="the complete list is copied before it is sorted")
+m2("C04","trimspace-after-name","util/pypi/metadata.go","\ts = strings.TrimLeft(s[nameEnd:], whitespace)","\ts = strings.TrimSpace(s[nameEnd:])","C04.1","wider whitespace class can trim the remainder to nothing before s[0]")
+b("c04-trimleft-const-inline", ["C04","C16"], "util/pypi/metadata.go", "\ts = strings.TrimLeft(s[nameEnd:], whitespace)", "\trest := s[nameEnd:]\n\ts = strings.TrimLeft(rest, \" \\t\")", note="suffix held in a local, cutset written out")
+m2("C08","union-extras-in-place","util/resolve/pypi/resolve.go","\tnewExtras := make(map[string]bool, len(extras))\n\tfor k, v := range extras {\n\t\tnewExtras[k] = v\n\t}","\tnewExtras := extras\n\tif newExtras == nil {\n\t\tnewExtras = make(map[string]bool)\n\t}","C08.f","extras of the stored criterion updated in place")
+b("c08-union-extras-of-copy", ["C08","C05"], "util/resolve/pypi/resolve.go", "\tnewCrit.extras = unionExtras(crit.extras, req.Type)", "\tnewCrit.extras = unionExtras(newCrit.extras, req.Type)", note="the union starts from the copy's own map")
+m2("C07","requirement-before-exclusion","util/resolve/maven/resolve.go","\t\t\tif isExcluded, err := r.isExcluded(cur.exclusions, d.VersionKey); err != nil {","\t\t\tif pk := r.packageKeyForDependency(d.RequirementVersion); !slices.Contains(requirements[pk], d.VersionKey) {\n\t\t\t\trequirements[pk] = append(requirements[pk], d.VersionKey)\n\t\t\t}\n\t\t\tif isExcluded, err := r.isExcluded(cur.exclusions, d.VersionKey); err != nil {","C07.h","an excluded declaration's requirement is recorded before it is skipped")
+b("c07-excluded-flat-ifs", ["C07"], "util/resolve/maven/resolve.go", "\t\t\tif isExcluded, err := r.isExcluded(cur.exclusions, d.VersionKey); err != nil {\n\t\t\t\treturn nil, false, err\n\t\t\t} else if isExcluded {", "\t\t\tisExcluded, err := r.isExcluded(cur.exclusions, d.VersionKey)\n\t\t\tif err != nil {\n\t\t\t\treturn nil, false, err\n\t\t\t}\n\t\t\tif isExcluded {", note="if/else-if chain flattened")
+m2("C13","node-compare-one-sided","util/resolve/graph.go","\tif li, lj := len(n.Errors), len(o.Errors); li < lj {\n\t\treturn -1\n\t} else if li > lj {\n\t\treturn 1\n\t}\n\tfor i := range n.Errors {\n\t\tif c := n.Errors[i].Compare(o.Errors[i]); c != 0 {","\tfor i := range n.Errors {\n\t\tif i >= len(o.Errors) {\n\t\t\treturn 1\n\t\t}\n\t\tif c := n.Errors[i].Compare(o.Errors[i]); c != 0 {","C13.f","the shorter-error-list case is handled for one operand only")
+m2("C19","compare-ranges-over-map","util/resolve/internal/attr/set.go","\tfor remBits := s.attrBits; remBits != 0; {\n\t\t// Find lowest set bit.\n\t\tkey := uint8(bits.TrailingZeros64(remBits))\n\t\tremBits &^= 1 << uint(key)\n\n\t\tif cmp := strings.Compare(s.attrs[key], other.attrs[key]); cmp != 0 {\n\t\t\treturn cmp\n\t\t}\n\t}\n\n\treturn 0\n}","\tfor key, value := range s.attrs {\n\t\tif cmp := strings.Compare(value, other.attrs[key]); cmp != 0 {\n\t\t\treturn cmp\n\t\t}\n\t}\n\n\treturn 0\n}","C19.g","sign decided inside a range over the attribute map")
+b("c13-node-compare-cmp-lengths", ["C13","C04"], "util/resolve/graph.go", "\tif li, lj := len(n.Errors), len(o.Errors); li < lj {\n\t\treturn -1\n\t} else if li > lj {\n\t\treturn 1\n\t}", "\tif li, lj := len(n.Errors), len(o.Errors); li != lj {\n\t\tif li < lj {\n\t\t\treturn -1\n\t\t}\n\t\treturn 1\n\t}", note="length comparison nested under an inequality test")
 for x in B:
     json.dump({k: v for k, v in x.items() if k != "name"}, open(os.path.join("/verif/mutants/benign", x["name"] + ".json"), "w"), indent=1, ensure_ascii=False)
 print(len(M2), "C08 mutants;", len(B), "benign total")
